@@ -135,6 +135,7 @@ class Program:
                 except SyntaxError as e:
                     raise AnalysisError(f"{name}: syntax error {e}")
                 self.modules[name] = ModuleInfo(name, _normalise(tree), src)
+        _canonical_calls([m.tree for m in self.modules.values()])
         for m in self.modules.values():
             self._index_module(m)
         for c in self.classes.values():
@@ -458,6 +459,73 @@ class _Normaliser(ast.NodeTransformer):
         for h in n.handlers:
             h.body = self._strip(h.body)
         return n
+
+
+def _canonical_calls(trees) -> None:
+    """argument passing style is normalised for calls to functions / methods / constructors of the package:
+    every argument that can be positional is positional (keywords naming the next parameters are moved over), the
+    remaining keywords follow in parameter order.  A call is touched only if all package functions of that name (or the
+    class of that name) agree on their parameter list, so no resolution by type is needed."""
+    sigs: Dict[str, list] = {}
+
+    def params_of(fn: ast.FunctionDef, method: bool):
+        a = fn.args
+        if a.vararg or a.posonlyargs:
+            return None
+        ps = [x.arg for x in a.args]
+        static = any(isinstance(d, ast.Name) and d.id in ("staticmethod",) for d in fn.decorator_list)
+        if method and not static and ps and ps[0] in ("self", "cls"):
+            ps = ps[1:]
+        return ps
+
+    def collect(body, in_class):
+        for n in body:
+            if isinstance(n, (ast.FunctionDef, ast.AsyncFunctionDef)):
+                sigs.setdefault(n.name, []).append(params_of(n, in_class is not None))
+                collect_nested(n)
+            elif isinstance(n, ast.ClassDef):
+                init = next((b for b in n.body if isinstance(b, ast.FunctionDef) and b.name == "__init__"), None)
+                if init is not None:
+                    sigs.setdefault(n.name, []).append(params_of(init, True))
+                else:
+                    sigs.setdefault(n.name, []).append(None)  # inherited constructor: not canonicalised
+                collect(n.body, n)
+
+    def collect_nested(fn):
+        for n in ast.walk(fn):
+            if n is not fn and isinstance(n, (ast.FunctionDef, ast.AsyncFunctionDef)):
+                sigs.setdefault(n.name, []).append(params_of(n, False))
+
+    for t in trees:
+        collect(t.body, None)
+    sigs.pop("__init__", None)
+
+    class C(ast.NodeTransformer):
+        def visit_Call(self, n):
+            self.generic_visit(n)
+            nm = n.func.attr if isinstance(n.func, ast.Attribute) else (n.func.id if isinstance(n.func, ast.Name) else None)
+            cands = sigs.get(nm)
+            if not cands or any(c is None for c in cands) or any(c != cands[0] for c in cands):
+                return n
+            ps = cands[0]
+            if any(isinstance(a, ast.Starred) for a in n.args) or any(k.arg is None for k in n.keywords) or len(n.args) > len(ps):
+                return n
+            kw = {k.arg: k for k in n.keywords}
+            if any(k not in ps for k in kw) or any(p in kw for p in ps[: len(n.args)]):
+                return n
+            args = list(n.args)
+            for p_ in ps[len(args):]:
+                if p_ in kw:
+                    args.append(kw.pop(p_).value)
+                else:
+                    break
+            n.args = args
+            n.keywords = [kw[p_] for p_ in ps if p_ in kw]
+            return n
+
+    for t in trees:
+        C().visit(t)
+        ast.fix_missing_locations(t)
 
 
 def _normalise(tree: ast.Module) -> ast.Module:
